@@ -495,4 +495,19 @@ pub proof fn lemma_norm_preserved(r: M3, v: V3)
     lemma_mid(r, v);
     assert(mvec(rt, w) == v);
 }
+/// an orthogonal matrix preserves inner products: (R u).(R v) == u.v
+pub proof fn lemma_dot_preserved(r: M3, u: V3, v: V3)
+    requires proper(r)
+    ensures vdot(mvec(r, u), mvec(r, v)) == vdot(u, v)
+{
+    // (Ru).(Rv) = ((Ru) R).v = (R^T (R u)).v = ((R^T R) u).v = u.v
+    let w = mvec(r, u);
+    lemma_rowmatcol(w, r, v);
+    let rt = mtr(r);
+    lemma_vdot_comm(w, mcol(r, 0)); lemma_vdot_comm(w, mcol(r, 1)); lemma_vdot_comm(w, mcol(r, 2));
+    assert(vecmat(w, r) == mvec(rt, w));
+    lemma_mvec_assoc(rt, r, u);
+    lemma_mid(r, u);
+    assert(mvec(rt, w) == u);
+}
 } // mod linalg
